@@ -187,10 +187,31 @@ def run(ctx, res):
                                 okr = isinstance(gotb, IntV) and solver.entails(s4.pc, flit(eq(gotb.l, Lin.atom(("byte", bs_.base, (bs_.start + J).key())))))
                         res.compare(bool(okr), "field-recovery", T.method(pv.adt, "bit_string"),
                                     "RPSI: the recovered string has the configured number of bits (8*len - ignored) and its whole bytes are the configured bytes", detail=repr(r)[:200], pc=s3.pc)
+                        # the partially used last byte: its leading 8 - ignored bits are the configured ones
+                        if okr:
+                            from .. import bits as BL
+                            s5 = s3.clone()
+                            s5.pc.append(ge(Lb, 1))
+                            if solver.feasible(s5.pc):
+                                n[0] += 1
+                                c = next((c for c in range(9) if solver.entails(s5.pc, flit(eq(ov, c)))), None)
+                                okl, gotl = False, None
+                                if c == 8:
+                                    okl = True
+                                elif c is not None and solver.entails(s5.pc, flit(ge(view.length(), Lb))):
+                                    gotl = T.I.read_byte(s5, view.base, view.start + Lb - 1)
+                                    want = Lin.atom(("byte", bs_.base, (bs_.start + Lb - 1).key()))
+                                    gb, wb = (BL.to_bits(gotl.l, 8) if isinstance(gotl, IntV) else None), BL.to_bits(want, 8)
+                                    if gb is not None and wb is not None:
+                                        g2, w2 = BL.from_bits([0] * c + list(gb[c:])), BL.from_bits([0] * c + list(wb[c:]))
+                                        okl = g2 is not None and w2 is not None and solver.entails(s5.pc, flit(eq(g2, w2)))
+                                res.compare(okl, "field-recovery", T.method(pv.adt, "bit_string"),
+                                            "RPSI: the leading 8 - ignored bits of the last string byte are the configured ones (bit-for-bit, for each ignored-bit count 0..8)",
+                                            detail=f"ignored = {c}; read back {gotl!r}"[:200], pc=s5.pc)
     nack_encoder(F, D, res)
     res.floor("round-trip comparisons", n[0], 30)
     res.analysed = {"comparisons": n[0]}
-    res.assumptions.append("not decided: NACK decoded set == requested set for every set (composition of two run-length state machines); the partially used last RPSI byte")
+    res.assumptions.append("not decided: NACK decoded set == requested set for every set (composition of two run-length state machines)")
 
 
 def nack_encoder(F, D, res):
